@@ -179,6 +179,51 @@ def rewrite_query(q, fe):
     return rq(q)
 
 
+def rewrite_blocks(q, fb):
+    """apply the SELECT-block rewriter fb bottom-up to every (select ..) node of query q"""
+    def rq(q):
+        h = q[0]
+        if h == "table":
+            return q
+        if h == "values":
+            return [h, [[re(e) for e in r] for r in q[1]]]
+        if h == "select":
+            f, wh, grp, hav, sel, dis = q[1:]
+            g = grp if grp == "-" else [[re(e) for e in grp[0]], [[a[0], a[1], re(a[2])] for a in grp[1]]]
+            return fb([h, opt(f, rf), opt(wh, re), g, opt(hav, re), [re(e) for e in sel], dis])
+        if h == "union":
+            return [h, q[1], rq(q[2]), rq(q[3])]
+        if h == "order":
+            return [h, rq(q[1])] + q[2:]
+        raise ValueError(show(q))
+
+    def rf(f):
+        h = f[0]
+        if h == "fq":
+            return [h, rq(f[1])]
+        if h == "join":
+            return [h, f[1], rf(f[2]), rf(f[3]), opt(f[4], re), f[5], f[6]]
+        if h == "lateral":
+            return [h, f[1], rf(f[2]), rq(f[3]), opt(f[4], re), f[5]]
+        raise ValueError(show(f))
+
+    def re(e):
+        return map_children(e, re, rq)
+    return rq(q)
+
+
+def gs_empty(b):
+    """engine: the empty grouping set of ROLLUP/CUBE yields no grand-total row when its input is empty.
+    The generator writes that block as a global aggregate whose projection starts with a NULL key
+    (no other generated block has that shape); the deviation = that block HAVING count(*) > 0."""
+    f, wh, grp, hav, sel, dis = b[1:]
+    if grp != "-" and grp[0] == [] and hav == "-" and sel and sel[0] == ["const", "N"]:
+        n = len(grp[1])
+        g = [[], grp[1] + [["countstar", "0", ["const", "N"]]]]
+        return ["select", f, wh, g, ["cmp", "gt", ["col", "0", str(n)], ["const", ["i", "0"]]], sel, dis]
+    return b
+
+
 # ---- known-deviation classes as rewrites -------------------------------------------------------
 
 def in2v(e):
@@ -323,7 +368,14 @@ KNOWN_REWRITES = {
     "in-subquery-two-valued": in2v,
     "correlated-scalar-aggregate-null-on-empty": count_null,
     "distributive-or-absorption": dor_absorb,
+    "grouping-sets-empty-input-no-grand-total": ("block", gs_empty),
 }
+
+
+def apply_rewrite(q, fe):
+    if isinstance(fe, tuple):
+        return rewrite_blocks(q, fe[1])
+    return rewrite_query(q, fe)
 
 
 def variants(sx):
@@ -331,7 +383,7 @@ def variants(sx):
     q = parse(sx)
     out = {}
     for cid, fe in KNOWN_REWRITES.items():
-        r = show(rewrite_query(q, fe))
+        r = show(apply_rewrite(q, fe))
         if r != show(q):
             out[cid] = r
     ids = list(out)
@@ -341,7 +393,7 @@ def variants(sx):
         for combo in itertools.combinations(ids, k):
             r = q
             for cid in combo:
-                r = rewrite_query(r, KNOWN_REWRITES[cid])
+                r = apply_rewrite(r, KNOWN_REWRITES[cid])
             t = show(r)
             if t not in out.values():
                 out["+".join(combo)] = t
